@@ -275,4 +275,40 @@ theorem parse_loop_eq (env : Env) (line : Bytes) :
 theorem parse_eq (env : Env) (line : Bytes) : GIV.Go.Script.parse env line = resOf (parseIdx env line) := by
   unfold GIV.Go.Script.parse parseIdx
   exact parse_loop_eq env line (line.length + 1) 0 [] [] none false (by simp) (by simp) (by omega)
+
+/-! ### the mapping function of `expand` (the closure handed to os.Expand) -/
+
+theorem trimSuffix_isSuffixOf (key suf : Bytes) :
+    GoLib.trimSuffix key suf = if suf.isSuffixOf key then key.take (key.length - suf.length) else key := by
+  unfold GoLib.trimSuffix GoLib.hasSuffix
+  by_cases h : suf <:+ key
+  · have hlen := h.length_le
+    have hd : key.drop (key.length - suf.length) = suf := (List.suffix_iff_eq_drop.mp h).symm
+    simp [List.isSuffixOf_iff_suffix.mpr h, hlen, hd]
+  · have hs : suf.isSuffixOf key = false := by
+      cases hh : suf.isSuffixOf key
+      · rfl
+      · exact absurd (List.isSuffixOf_iff_suffix.mp hh) h
+    rw [hs]
+    by_cases hlen : suf.length ≤ key.length
+    · by_cases hd : key.drop (key.length - suf.length) = suf
+      · exact absurd (List.suffix_iff_eq_drop.mpr hd.symm) h
+      · simp [hlen, hd]
+    · simp [hlen]
+
+/-- The translated mapping function of `expand` is the model's, for every environment and key. -/
+theorem expandMapping_eq (env : Env) (key : Bytes) :
+    GIV.Go.Script.expandMapping env key = some (GoLib.Res.ok (GIV.Script.expandMapping env key)) := by
+  have f1 : Gen.Script.atRSuffix = [64, 82] := rfl
+  have f2 : Gen.Script.atRQuotesMeta = true := rfl
+  have f3 : Gen.Script.expandUsesGetenv = true := rfl
+  unfold GIV.Go.Script.expandMapping GIV.Script.expandMapping
+  simp only [f1, f2, f3, if_true, trimSuffix_isSuffixOf, GoLib.len]
+  by_cases hs : ([64, 82] : Bytes).isSuffixOf key
+  · by_cases hl : key.length - 2 = key.length
+    · have hi : (((key.length - 2 : Nat) : Int) = ((key.length : Nat) : Int)) := by omega
+      simp [hs, hl, hi]
+    · have hi : ¬ (((key.length - 2 : Nat) : Int) = ((key.length : Nat) : Int)) := by omega
+      simp [hs, hl, hi]
+  · simp [hs]
 end GIV.ScriptGo
